@@ -12,10 +12,10 @@ TIERS = {'quick': 5000, 'thorough': 250000}
 RULE = ('each case is one session (connect, shell family, list, stat, pull, push) executed with whole-buffer reads and again under a seeded '
         'fragmentation policy (1-byte, uniform, boundary-biased, mixed, with interspersed empty reads); results and host packet logs must be '
         'identical and equal to ground truth, no read may ask for more than remains in the current header/payload; a third of the cases '
-        'instead corrupt one packet on the wire (byte flip, bit flip, unknown command word; all-zero payloads included) and demand '
+        'instead corrupt one packet on the wire (byte flip, bit flip, unknown command word -- alone, with a payload that no longer matches its checksum, or with the payload withheld; all-zero payloads included) and demand '
         'InvalidChecksumError / InvalidCommandError. non-trivial = a header or payload was delivered in >= 2 reads, or a corruption fired')
 ASSUMPTIONS = ['a byte-sum checksum detects every single-byte and single-bit change, so the corruption oracle has no false negatives by construction']
-EXPECT_PROBES = {'all': ['hdr_split', 'payload_split', 'empty_reads', 'corrupt_payload', 'corrupt_cmd', 'corrupt_allzero_payload', 'noise_packet', 'corrupt_noise_packet']}
+EXPECT_PROBES = {'all': ['hdr_split', 'payload_split', 'empty_reads', 'corrupt_payload', 'corrupt_cmd', 'corrupt_cmd_and_payload', 'corrupt_cmd_payload_withheld', 'corrupt_allzero_payload', 'noise_packet', 'corrupt_noise_packet']}
 KINDS = ['shell', 'exec_out', 'streaming_shell', 'list', 'stat', 'pull', 'push']
 OWN = ('wrong-result', 'unexpected-exception', 'timeout-instead-of-result', 'missing-exception', 'wrong-exception', 'hang', 'no-termination',
        'over-read', 'frag-differs', 'corrupt-delivered', 'corrupt-wrong-exception')
@@ -36,6 +36,9 @@ def generate(seed, tier):
         case['corrupt'] = {'pick': g.int(0, 1 << 30), 'kind': g.pick(['byte', 'bit', 'cmd', 'cmd']), 'off': g.int(0, 1 << 20), 'bitno': g.int(0, 7), 'delta': g.int(0, 253)}
         if g.chance(0.3):
             case['corrupt']['word'] = g.pick([0x59414b4e, 0x5a414b4f, 0x4e45504e, 0x4f4b4159, 0, 0xFFFFFFFF, 0x45545258, g.int(0, 0xFFFFFFFF)])
+        if case['corrupt']['kind'] == 'cmd' and g.chance(0.4):
+            # the unknown command word must be rejected at the header, whatever the rest of that packet looks like
+            case['corrupt']['payload'] = g.pick(['flip', 'withhold'])
         if g.chance(0.3):
             # packets for streams nobody is reading are interleaved, and one of *those* gets the unknown command word / flipped byte
             scn['device']['noise_every'] = g.pick([1, 2, 3])
@@ -94,6 +97,8 @@ def evaluate(case, tapes=None):
         s2['device']['corrupt'] = {'at': at, 'kind': cor['kind'], 'off': cor['off'], 'bitno': cor['bitno'], 'delta': cor['delta'], 'noise_only': bool(cor.get('noise_only'))}
         if 'word' in cor:
             s2['device']['corrupt']['word'] = cor['word']
+        if cor.get('payload'):
+            s2['device']['corrupt']['payload'] = cor['payload']
         c2 = dict(case)
         c2['scn_corrupt'] = s2
         run1, tape1 = run_scn(c2, 'scn_corrupt', 1, tapes, seed_idx=0)
